@@ -1422,6 +1422,47 @@ pub fn run(ctx: &mut Ctx, r: &mut Rng, tier: &str) {
         }
     }
 
+    // ---- stock objects with ONE parameter customised (what a user does first), never stepped and stepped: the state is
+    // still the stock initial state while a parameter is not — a load hook must not "repair" either from the other
+    {
+        let c = "customised_default";
+        for (k, v) in [(0usize, 1.0), (1, 0.9), (2, 0.97)] {
+            let mut x = ReversibleEnergyStorage::default();
+            x.max_soc = uc::R * v;
+            run.check(&format!("{c}.res.max_soc{k}"), "generated", &x, true);
+            let mut x = ReversibleEnergyStorage::default();
+            x.min_soc = uc::R * (0.05 + 0.1 * k as f64);
+            run.check(&format!("{c}.res.min_soc{k}"), "generated", &x, true);
+            let mut x = ReversibleEnergyStorage::default();
+            x.pwr_out_max = x.pwr_out_max * (0.5 + 0.2 * k as f64);
+            run.check(&format!("{c}.res.pwr{k}"), "generated", &x, true);
+            let mut x = ReversibleEnergyStorage::default();
+            x.energy_capacity = x.energy_capacity * (0.7 + 0.3 * k as f64);
+            run.check(&format!("{c}.res.cap{k}"), "generated", &x, true);
+            let mut f = FuelConverter::default();
+            match k { 0 => f.pwr_out_max = f.pwr_out_max * 0.9, 1 => f.pwr_ramp_lag = f.pwr_ramp_lag * 2.0, _ => f.pwr_idle_fuel = f.pwr_idle_fuel * 0.5 }
+            run.check(&format!("{c}.fc{k}"), "generated", &f, true);
+            let mut g = Generator::default();
+            g.pwr_out_max = g.pwr_out_max * (0.8 + 0.1 * k as f64);
+            run.check(&format!("{c}.gen{k}"), "generated", &g, true);
+            let mut e = ElectricDrivetrain::default();
+            e.pwr_out_max = e.pwr_out_max * (0.8 + 0.1 * k as f64);
+            run.check(&format!("{c}.edrv{k}"), "generated", &e, true);
+            // the same inside a locomotive, a consist and simulations (checkpoint 0 and later)
+            let mut l = Locomotive::default_battery_electric_loco();
+            if let Some(b) = l.reversible_energy_storage_mut() { b.max_soc = uc::R * v; }
+            run.check(&format!("{c}.bel.max_soc{k}"), "generated", &l, true);
+            let ls = LocomotiveSimulation::new(l.clone(), PowerTrace::default(), Some(1));
+            run.checkpoints(&format!("{c}.bel_sim.max_soc{k}"), &ls, if thorough { 12 } else { 4 }, 2);
+            let mut cv = Locomotive::default();
+            if let Some(f) = cv.fuel_converter_mut() { f.pwr_out_max = f.pwr_out_max * 0.95; }
+            let con = Consist::new(vec![cv, l], Some(1), PowerDistributionControlType::default());
+            run.check(&format!("{c}.consist{k}"), "generated", &con, true);
+            let cs = ConsistSimulation::new(con, PowerTrace::default(), Some(1));
+            run.checkpoints(&format!("{c}.consist_sim{k}"), &cs, if thorough { 12 } else { 4 }, 2);
+        }
+    }
+
     // ---- simulations: every step index is a checkpoint
     let (n_sims, n_steps) = if thorough { (30, 40) } else { (4, 18) };
     for i in 0..n_sims {
